@@ -6,7 +6,25 @@
 
    Go -> model
      centres            fixed set: local 0,1,2,3 (0 starts direct, 1,2,3 start in channel mode),
-                        light 10,11; any other index: the action is not applicable (VNop)
+                        owned by the driver goroutine (it is the one that receives from their
+                        channels: ODrain); local 4,5 = the EventCenter of a
+                        runservice.StandardRunService (always channel mode), owned by the service's
+                        loop goroutine from Start() until the loop has ended; light 10,11 (driver);
+                        any other index: the action is not applicable (VNop)
+     goroutines         tokens: 0 = the driver, 4 / 5 = the loop goroutine of service 4 / 5.  Every
+                        listener invocation records the goroutine it runs on ([VInv .. g]).
+                        [owner w c] is the goroutine that owns centre c after history w.
+     run service        OStart c: Start(); the loop handles what is queued and is then kept busy
+                        inside a scheduler task (that is how events come to be pending); OOwn c a:
+                        that task performs a on the loop goroutine; ORun c: the task returns, the loop
+                        handles everything queued (VSkip: events nobody listens to, VDeq + dispatch:
+                        the others) and is busy again - or, once Stop() was called, ends (VLoopEnd);
+                        AStop c: StandardRunService.Stop() (TimerMgr.Stop, EventCenter.Clear,
+                        RunService.Stop) called by whoever performs the action: the driver (a foreign
+                        goroutine, events still queued), the busy task, or a listener.
+                        An action on a centre the acting goroutine does not own is not issued (VNop),
+                        except those that are meant to be called from anywhere: GlobalEC.Publish,
+                        a channel-mode Publish (a send) and Stop().
      event names, args  Z tokens (the harness maps names injectively to strings)
      listener id        token l = 1,2,3,... in creation order (the harness maps the uint64 the
                         real Subscribe returned to that token; 0 = Subscribe returned 0)
@@ -51,14 +69,18 @@ Inductive action :=
 | AUnsubCb (c n how code : Z) (* light: how < 2 Unsubscribe(cb), else UnsubscribeWithReceiver *)
 | AClear (c : Z)
 | APub (c n : Z) (args : list Z)
-| AGPub (n : Z) (args : list Z) (k : Z).  (* GetGlobalEC().Publish, k times (k>1: queue filler) *)
+| AGPub (n : Z) (args : list Z) (k : Z)   (* GetGlobalEC().Publish, k times (k>1: queue filler) *)
+| AStop (c : Z).              (* StandardRunService.Stop() of the service of centre c *)
 
 Inductive op :=
 | ODef (pid : Z) (prog : list action)   (* (re)define callback program pid *)
-| OAct (a : action)                     (* the owner goroutine performs a, outside any listener *)
+| OAct (a : action)                     (* the driver goroutine performs a, outside any listener *)
 | ODrain (c k : Z)                      (* owner: up to k times { e, ok := <-chan; DoEvent(e) } *)
 | ODiscard (c k : Z)                    (* owner: receive up to k events and throw them away *)
-| OSetChan (c : Z) (b : bool).          (* SetLocalUseChan *)
+| OSetChan (c : Z) (b : bool)           (* SetLocalUseChan *)
+| OStart (c : Z)                        (* driver: Start() of service c; its loop runs until idle *)
+| ORun (c : Z)                          (* the loop of c is released and runs until idle / ended *)
+| OOwn (c : Z) (a : action).            (* the loop goroutine of c (busy in a task) performs a *)
 
 (* ---------------------------------------------------------------- trace events *)
 Inductive ev :=
@@ -70,7 +92,7 @@ Inductive ev :=
 | VAmbig                                           (* by-callback target ambiguous: call not issued *)
 | VClear (c : Z)
 | VBegin (p c n : Z) (args : list Z)               (* publication p: direct Publish / DoEvent *)
-| VInv (p l : Z) (args : list Z)                   (* listener l entered with these arguments *)
+| VInv (p l : Z) (args : list Z) (g : Z)           (* listener l entered with these arguments, on goroutine g *)
 | VRet (l : Z) (kept : bool)                       (* l returns; its arguments are unchanged *)
 | VEnd (p : Z)
 | VEnq (c n : Z) (args : list Z)                   (* channel-mode Publish about to send *)
@@ -79,7 +101,12 @@ Inductive ev :=
 | VDrop (c : Z) (runs : list (Z * (Z * list Z)))   (* owner received these events, in this order,
                                                       written as maximal runs (count, event) *)
 | VNop                                             (* action not applicable to that centre *)
-| VDeadlock.                                       (* the call never returned (watchdog) *)
+| VDeadlock                                        (* the call never returned (watchdog) *)
+| VStart (c : Z)                                   (* Start(): the loop goroutine of service c exists *)
+| VStop (c : Z)                                    (* Stop() of service c was called and has returned *)
+| VSkip (c k : Z)                                  (* the loop of c received the next k events; nobody invoked *)
+| VLoopEnd (c : Z).                                (* the loop goroutine of c has ended; what was left in
+                                                      its queue is never received *)
 
 (* ---------------------------------------------------------------- the view of a trace *)
 Record linfo := LI { i_l : Z; i_c : Z; i_n : Z; i_g : bool; i_bound : list Z }.
@@ -94,13 +121,22 @@ Record view := VW {
   npub : Z;                 (* next publication number *)
   queues : alist queue;     (* pending events of local centres *)
   lastfull : bool;          (* the last event was a channel send on a full queue *)
-  dead : bool }.
+  dead : bool;
+  alive : list Z;           (* services whose loop goroutine exists (started, not ended) *)
+  stopped : list Z }.       (* services on which Stop() was called *)
 
-Definition view0 : view := VW [] 1 [] [] 1 [] false false.
+Definition view0 : view := VW [] 1 [] [] 1 [] false false [] [].
 
-Definition is_local (c : Z) : bool := (0 <=? c) && (c <=? 3).
+Definition is_drv (c : Z) : bool := (0 <=? c) && (c <=? 3).
+Definition is_svc (c : Z) : bool := (4 <=? c) && (c <=? 5).
+Definition is_local (c : Z) : bool := (0 <=? c) && (c <=? 5).
 Definition is_light (c : Z) : bool := (10 <=? c) && (c <=? 11).
-Definition local_centres : list Z := [0; 1; 2; 3].
+Definition local_centres : list Z := [0; 1; 2; 3; 4; 5].
+
+(* the goroutine that owns centre c: the loop of its run service while that loop exists, the
+   driver otherwise *)
+Definition loop_alive (w : view) (c : Z) : bool := is_svc c && zmem c (alive w).
+Definition owner (w : view) (c : Z) : Z := if loop_alive w c then c else 0.
 
 Definition at_cn (c n : Z) (i : linfo) : bool := (i_c i =? c) && (i_n i =? n).
 Definition members (w : view) (c n : Z) : list linfo := filter (at_cn c n) (live w).
@@ -110,13 +146,26 @@ Definition queue_of (w : view) (c : Z) : queue :=
 Definition qlen (w : view) (c : Z) : Z := Z.of_nat (length (queue_of w c)).
 
 Definition set_live (w : view) (x : list linfo) : view :=
-  VW x (fresh w) (cleared w) (frames w) (npub w) (queues w) (lastfull w) (dead w).
+  VW x (fresh w) (cleared w) (frames w) (npub w) (queues w) (lastfull w) (dead w) (alive w) (stopped w).
+Definition set_fresh (w : view) (x : Z) : view :=
+  VW (live w) x (cleared w) (frames w) (npub w) (queues w) (lastfull w) (dead w) (alive w) (stopped w).
+Definition set_cleared (w : view) (x : list Z) : view :=
+  VW (live w) (fresh w) x (frames w) (npub w) (queues w) (lastfull w) (dead w) (alive w) (stopped w).
 Definition set_frames (w : view) (x : alist frame) : view :=
-  VW (live w) (fresh w) (cleared w) x (npub w) (queues w) (lastfull w) (dead w).
+  VW (live w) (fresh w) (cleared w) x (npub w) (queues w) (lastfull w) (dead w) (alive w) (stopped w).
+Definition set_npub (w : view) (x : Z) : view :=
+  VW (live w) (fresh w) (cleared w) (frames w) x (queues w) (lastfull w) (dead w) (alive w) (stopped w).
 Definition set_queue (w : view) (c : Z) (q : queue) : view :=
-  VW (live w) (fresh w) (cleared w) (frames w) (npub w) (aset c q (queues w)) (lastfull w) (dead w).
+  VW (live w) (fresh w) (cleared w) (frames w) (npub w) (aset c q (queues w)) (lastfull w) (dead w)
+     (alive w) (stopped w).
 Definition set_lastfull (w : view) (b : bool) : view :=
-  VW (live w) (fresh w) (cleared w) (frames w) (npub w) (queues w) b (dead w).
+  VW (live w) (fresh w) (cleared w) (frames w) (npub w) (queues w) b (dead w) (alive w) (stopped w).
+Definition set_dead (w : view) (b : bool) : view :=
+  VW (live w) (fresh w) (cleared w) (frames w) (npub w) (queues w) (lastfull w) b (alive w) (stopped w).
+Definition set_alive (w : view) (x : list Z) : view :=
+  VW (live w) (fresh w) (cleared w) (frames w) (npub w) (queues w) (lastfull w) (dead w) x (stopped w).
+Definition set_stopped (w : view) (x : list Z) : view :=
+  VW (live w) (fresh w) (cleared w) (frames w) (npub w) (queues w) (lastfull w) (dead w) (alive w) x.
 
 Definition repeat_ev (x : Z * list Z) (k : Z) : queue := repeat x (Z.to_nat k).
 
@@ -147,17 +196,18 @@ Fixpoint grow (w : view) (x : Z * list Z) (cs qlens : list Z) : view :=
 
 Definition vstep0 (w : view) (e : ev) : view :=
   match e with
-  | VSub l c n g b =>
-      VW (live w ++ [LI l c n g b]) (l + 1) (cleared w) (frames w) (npub w) (queues w) false (dead w)
+  | VSub l c n g b => set_fresh (set_live w (live w ++ [LI l c n g b])) (l + 1)
   | VUnsub c n l | VUnsubCb c n l =>
       set_live w (filter (fun i => negb ((i_l i =? l) && at_cn c n i)) (live w))
   | VClear c =>
-      VW (filter (fun i => negb (i_c i =? c)) (live w)) (fresh w) (c :: cleared w)
-         (frames w) (npub w) (queues w) false (dead w)
+      set_cleared (set_live w (filter (fun i => negb (i_c i =? c)) (live w))) (c :: cleared w)
+  | VStop c =>
+      (* Stop() clears the centre *)
+      set_stopped (set_cleared (set_live w (filter (fun i => negb (i_c i =? c)) (live w))) (c :: cleared w))
+                  (c :: stopped w)
   | VBegin p c n a =>
-      VW (live w) (fresh w) (cleared w)
-         (aset p (FR c n a (map i_l (members w c n)) []) (frames w)) (p + 1) (queues w) false (dead w)
-  | VInv p l _ =>
+      set_npub (set_frames w (aset p (FR c n a (map i_l (members w c n)) []) (frames w))) (p + 1)
+  | VInv p l _ _ =>
       match aget p (frames w) with
       | Some f => set_frames w (aset p (FR (f_c f) (f_n f) (f_args f) (f_snap f) (l :: f_seen f)) (frames w))
       | None => w
@@ -168,7 +218,10 @@ Definition vstep0 (w : view) (e : ev) : view :=
   | VGPub n a _ qlens => grow w (n, a) local_centres qlens
   | VDeq c _ _ => set_queue w c (tl (queue_of w c))
   | VDrop c runs => set_queue w c (skipn (length (expand runs)) (queue_of w c))
-  | VDeadlock => VW (live w) (fresh w) (cleared w) (frames w) (npub w) (queues w) false true
+  | VSkip c k => set_queue w c (skipn (Z.to_nat k) (queue_of w c))
+  | VStart c => set_alive w (c :: alive w)
+  | VLoopEnd c => set_alive (set_queue w c []) (filter (fun x => negb (x =? c)) (alive w))
+  | VDeadlock => set_dead w true
   | VOp | VSubFail | VAmbig | VRet _ _ | VNop => w
   end.
 
@@ -188,7 +241,7 @@ Record st := ST {
   guide : list ev;             (* rest of the order oracle *)
   log : list ev }.             (* emitted trace, newest first *)
 
-Definition init (g : list ev) : st := ST view0 [] [1; 2; 3] [] [] g [].
+Definition init (g : list ev) : st := ST view0 [] [1; 2; 3; 4; 5] [] [] g [].
 
 Definition set_vw (s : st) (w : view) : st :=
   ST w (attrs s) (chanm s) (greg s) (progs s) (guide s) (log s).
@@ -272,6 +325,15 @@ Definition do_clear (c : Z) (s : st) : st :=
   if negb (is_local c || is_light c) then emit VNop s
   else emit (VClear c) (set_greg s (filter (fun x => negb (fst x =? c)) (greg s))).
 
+(* StandardRunService.Stop(): TimerMgr.Stop(); EventCenter.Clear(); RunService.Stop().  Only a
+   service whose loop exists and that was not stopped before (a second Stop() panics on the
+   closed channel: not issued). *)
+Definition can_stop (w : view) (c : Z) : bool := loop_alive w c && negb (zmem c (stopped w)).
+Definition do_stop (c : Z) (s : st) : st :=
+  if can_stop (vw s) c
+  then emit (VStop c) (set_greg s (filter (fun x => negb (fst x =? c)) (greg s)))
+  else emit VNop s.
+
 (* GlobalEventCenter.Publish, k times: non-blocking send to every registered centre *)
 Definition gpub_len (s : st) (n k c : Z) : Z :=
   if pair_mem c n (greg s) then Z.min QCAP (qlen (vw s) c + k) else qlen (vw s) c.
@@ -282,7 +344,7 @@ Definition do_gpub (n : Z) (args : list Z) (k : Z) (s : st) : st :=
 (* ---------------------------------------------------------------- one nesting level *)
 Definition hint (p : Z) (s : st) : option Z :=
   match guide s with
-  | VInv p' l _ :: _ => if p' =? p then Some l else None
+  | VInv p' l _ _ :: _ => if p' =? p then Some l else None
   | _ => None
   end.
 
@@ -297,8 +359,13 @@ Definition pick (h : option Z) (todo : list Z) : option (Z * list Z) :=
   end.
 
 Section Level.
+  (* the goroutine that executes *)
+  Variable g : Z.
   (* what invoking a listener (one level deeper) does *)
   Variable invoke_below : Z -> linfo -> list Z -> st -> st.
+
+  (* the executing goroutine owns centre c *)
+  Definition mine (s : st) (c : Z) : bool := g =? owner (vw s) c.
 
   (* the body of the repaired dispatch loop over the snapshot [todo] *)
   Fixpoint visit (k : nat) (p c n : Z) (args : list Z) (todo : list Z) (s : st) : st :=
@@ -326,28 +393,30 @@ Section Level.
     emit (VEnd p) (visit (length todo) p c n args todo s1).
 
   Definition publish (c n : Z) (args : list Z) (s : st) : st :=
-    if is_light c then dispatch c n args s
+    if is_light c then (if mine s c then dispatch c n args s else emit VNop s)
     else if is_local c then
       if zmem c (chanm s) then
+        (* a send: from any goroutine *)
         let s1 := emit (VEnq c n args) s in
         if lastfull (vw s1) then emit VDeadlock s1 else s1
-      else dispatch c n args s
+      else if mine s c then dispatch c n args s else emit VNop s
     else emit VNop s.
 
   Definition exec_act (self : option linfo) (a : action) (s : st) : st :=
     if dead (vw s) then s else
     match a with
-    | ASub c n how code bound pid => do_sub c n how code bound pid s
-    | AUnsub c n l => do_unsub c n l s
+    | ASub c n how code bound pid => if mine s c then do_sub c n how code bound pid s else emit VNop s
+    | AUnsub c n l => if mine s c then do_unsub c n l s else emit VNop s
     | AUnsubSelf =>
         match self with
-        | Some i => do_unsub (i_c i) (i_n i) (i_l i) s
+        | Some i => if mine s (i_c i) then do_unsub (i_c i) (i_n i) (i_l i) s else emit VNop s
         | None => emit VNop s
         end
-    | AUnsubCb c n how code => do_unsub_cb c n how code s
-    | AClear c => do_clear c s
+    | AUnsubCb c n how code => if mine s c then do_unsub_cb c n how code s else emit VNop s
+    | AClear c => if mine s c then do_clear c s else emit VNop s
     | APub c n args => publish c n args s
     | AGPub n args k => do_gpub n args k s
+    | AStop c => do_stop c s
     end.
 
   Definition run_prog (self : option linfo) (acts : list action) (s : st) : st :=
@@ -356,16 +425,16 @@ End Level.
 
 Definition in_budget (s : st) : bool := Z.of_nat (length (log s)) <? BUDGET.
 
-Fixpoint invoke (d : nat) (p : Z) (i : linfo) (args : list Z) (s : st) : st :=
-  let s1 := emit (VInv p (i_l i) (i_bound i ++ args)) s in
+Fixpoint invoke (g : Z) (d : nat) (p : Z) (i : linfo) (args : list Z) (s : st) : st :=
+  let s1 := emit (VInv p (i_l i) (i_bound i ++ args) g) s in
   let s2 := match d with
             | O => s1
             | S d' =>
-                if in_budget s1 then run_prog (invoke d') (Some i) (prog_of s1 (i_l i)) s1 else s1
+                if in_budget s1 then run_prog g (invoke g d') (Some i) (prog_of s1 (i_l i)) s1 else s1
             end in
   emit (VRet (i_l i) true) s2.
 
-(* owner: receive one event and DoEvent it, up to k times, stopping when the queue is empty *)
+(* driver: receive one event and DoEvent it, up to k times, stopping when the queue is empty *)
 Fixpoint drain (k : nat) (c : Z) (s : st) : st :=
   match k with
   | O => s
@@ -374,9 +443,44 @@ Fixpoint drain (k : nat) (c : Z) (s : st) : st :=
       | [] => s
       | (n, a) :: _ =>
           if dead (vw s) then s
-          else drain k' c (dispatch (invoke DEPTH) c n a (emit (VDeq c n a) s))
+          else drain k' c (dispatch (invoke 0 DEPTH) c n a (emit (VDeq c n a) s))
       end
   end.
+
+(* ---------------------------------------------------------------- the loop of a run service *)
+(* an event nobody at centre c listens to: DoEvent finds no listener list / an empty one *)
+Definition noone (w : view) (c : Z) (x : Z * list Z) : bool :=
+  match members w c (fst x) with [] => true | _ => false end.
+Fixpoint noone_prefix (w : view) (c : Z) (q : queue) : nat :=
+  match q with
+  | x :: r => if noone w c x then S (noone_prefix w c r) else O
+  | [] => O
+  end.
+
+Definition LOOPFUEL : nat := Z.to_nat 3000.
+
+(* the "event" selector of StandardRunService: receive, DoEvent - on the loop goroutine c - until
+   the queue is empty; once Stop() was called (by a listener) the loop is on its way out *)
+Fixpoint loop (k : nat) (c : Z) (s : st) : st :=
+  match k with
+  | O => s
+  | S k' =>
+      if dead (vw s) || zmem c (stopped (vw s)) then s
+      else
+        let sk := noone_prefix (vw s) c (queue_of (vw s) c) in
+        let s1 := match sk with O => s | S _ => emit (VSkip c (Z.of_nat sk)) s end in
+        match queue_of (vw s1) c with
+        | [] => s1
+        | (n, a) :: _ => loop k' c (dispatch (invoke c DEPTH) c n a (emit (VDeq c n a) s1))
+        end
+  end.
+
+Definition run_loop (c : Z) (s : st) : st :=
+  let s1 := loop LOOPFUEL c s in
+  if zmem c (stopped (vw s1)) then emit (VLoopEnd c) s1 else s1.
+
+Definition can_start (w : view) (c : Z) : bool :=
+  is_svc c && negb (zmem c (alive w)) && negb (zmem c (stopped w)).
 
 Fixpoint resync (g : list ev) : list ev :=
   match g with
@@ -389,16 +493,19 @@ Definition exec_op (s : st) (o : op) : st :=
   let s0 := emit VOp (set_guide s (resync (guide s))) in
   match o with
   | ODef pid prog => set_progs s0 (aset pid prog (progs s0))
-  | OAct a => exec_act (invoke DEPTH) None a s0
-  | ODrain c k => if is_local c then drain (Z.to_nat (Z.max 0 (Z.min k 50))) c s0 else emit VNop s0
+  | OAct a => exec_act 0 (invoke 0 DEPTH) None a s0
+  | ODrain c k => if is_drv c then drain (Z.to_nat (Z.max 0 (Z.min k 50))) c s0 else emit VNop s0
   | ODiscard c k =>
-      if is_local c then emit (VDrop c (rle (firstn (Z.to_nat (clampk k)) (queue_of (vw s0) c)))) s0
+      if is_drv c then emit (VDrop c (rle (firstn (Z.to_nat (clampk k)) (queue_of (vw s0) c)))) s0
       else emit VNop s0
   | OSetChan c b =>
-      if is_local c then
+      if is_drv c then
         set_chanm s0 (if b then c :: filter (fun x => negb (x =? c)) (chanm s0)
                       else filter (fun x => negb (x =? c)) (chanm s0))
       else emit VNop s0
+  | OStart c => if can_start (vw s0) c then run_loop c (emit (VStart c) s0) else emit VNop s0
+  | ORun c => if loop_alive (vw s0) c then run_loop c s0 else emit VNop s0
+  | OOwn c a => if loop_alive (vw s0) c then exec_act c (invoke c DEPTH) None a s0 else emit VNop s0
   end.
 
 Definition final (g : list ev) (ops : list op) : st := fold_left exec_op ops (init g).
